@@ -15,7 +15,13 @@ package assets
 //   * killed with SIGKILL at a PRNG-chosen instant while it stores small and multi-megabyte
 //     configurations in a loop; afterwards the file is read with the real reader (`readConfigs`) and
 //     compared with the configuration before / being stored at the moment of the kill;
-//   * killed while under strace: the finished calls are the crash prefix for the model (`crash|…`).
+//   * killed while under strace: the finished calls are the crash prefix for the model (`crash|…`);
+//   * after a kill (or a run of failing stores) the directory is used again by a fresh process, leftovers of
+//     the interrupted stores included: the next stores must again leave exactly old or new;
+//   * a close(2) that fails is injected with a seccomp filter the helper installs on itself.
+//
+// The run ends with a floor on what was actually exercised (kills that landed inside a store, partial
+// temporary files, every fault class): a run that tested almost nothing does not report success.
 //
 // Oracle (independent of the model): the file parses and is equal to the old or the new configuration;
 // a store that reported success left exactly the new one, a failed one exactly the old one; after a
@@ -25,6 +31,7 @@ import (
 	"bufio"
 	"bytes"
 	"crypto/sha256"
+	"encoding/binary"
 	"encoding/hex"
 	"encoding/json"
 	"fmt"
@@ -33,6 +40,7 @@ import (
 	"os/exec"
 	"path/filepath"
 	"regexp"
+	"runtime"
 	"sort"
 	"strconv"
 	"strings"
@@ -40,6 +48,7 @@ import (
 	"syscall"
 	"testing"
 	"time"
+	"unsafe"
 
 	"github.com/refraction-networking/conjure/internal/vlib"
 	"github.com/refraction-networking/conjure/pkg/station/log"
@@ -139,14 +148,14 @@ func c20Conf(k int) *pb.ClientConf {
 
 // an operation on the assets singleton
 type c20Op struct {
-	Kind string   // conf | gen | pubkey | decoys | subnets
+	Kind string   // conf | confnil | gen | pubkey | decoys | subnets
 	K    int      // parameter (configuration number / value id)
-	Pre  []string // actions before the call: rodir rwdir rmdir mkdir fsize:<n>
+	Pre  []string // actions before the call: rodir rwdir rmdir mkdir fsize:<n> closefail
 }
 
 // symbolic configuration: a base configuration plus the in-place modifications since
 type c20Sym struct {
-	Base               int // -1: the built-in default (no file was read)
+	Base               int // -1: the built-in default (no file was read); -2: the empty configuration (SetClientConf(nil))
 	Gen, Pub, Dec, Sub int // -1: not modified
 }
 
@@ -154,9 +163,12 @@ var c20Default *pb.ClientConf
 
 func (s c20Sym) materialise() *pb.ClientConf {
 	var c *pb.ClientConf
-	if s.Base < 0 {
+	switch {
+	case s.Base == -2:
+		c = &pb.ClientConf{}
+	case s.Base < 0:
 		c = proto.Clone(c20Default).(*pb.ClientConf)
-	} else {
+	default:
 		c = c20Conf(s.Base)
 	}
 	if s.Gen >= 0 {
@@ -182,6 +194,8 @@ func (s c20Sym) apply(op c20Op) c20Sym {
 	switch op.Kind {
 	case "conf":
 		return c20Sym{Base: op.K, Gen: -1, Pub: -1, Dec: -1, Sub: -1}
+	case "confnil":
+		return c20Sym{Base: -2, Gen: -1, Pub: -1, Dec: -1, Sub: -1}
 	case "gen":
 		s.Gen = op.K
 	case "pubkey":
@@ -195,6 +209,9 @@ func (s c20Sym) apply(op c20Op) c20Sym {
 }
 
 func c20Digest(c *pb.ClientConf) string {
+	if c == nil {
+		c = &pb.ClientConf{} // SetClientConf(nil): the stored file is the empty configuration
+	}
 	b, err := proto.MarshalOptions{AllowPartial: true, Deterministic: true}.Marshal(c)
 	if err != nil {
 		return "unmarshalable"
@@ -316,6 +333,12 @@ func TestVerifC20Helper(t *testing.T) {
 			case strings.HasPrefix(p, "fsize:"):
 				n, _ := strconv.ParseInt(p[6:], 10, 64)
 				c20SetFsize(n)
+			case p == "closefail":
+				// the next descriptor the process opens is the temporary file's: its close(2) will fail
+				if err := c20FailCloseOfNextFd(); err != nil {
+					c20Mark("FATAL seccomp " + strings.ReplaceAll(err.Error(), " ", "_"))
+					os.Exit(5)
+				}
 			}
 		}
 		var conf *pb.ClientConf
@@ -328,6 +351,8 @@ func TestVerifC20Helper(t *testing.T) {
 		switch op.Kind {
 		case "conf":
 			err = a.SetClientConf(conf)
+		case "confnil":
+			err = a.SetClientConf(nil)
 		case "gen":
 			err = a.SetGeneration(uint32(op.K))
 		case "pubkey":
@@ -337,7 +362,11 @@ func TestVerifC20Helper(t *testing.T) {
 		case "subnets":
 			err = a.SetPhantomSubnets(args[j].sub)
 		}
-		c20Mark(fmt.Sprintf("E %d %s", i, vlib.B(err != nil)))
+		ec := "-"
+		if err != nil {
+			ec = strings.ReplaceAll(c20ErrClass(err), " ", "_")
+		}
+		c20Mark(fmt.Sprintf("E %d %s %s", i, vlib.B(err != nil), ec))
 		if job.Loop {
 			continue
 		}
@@ -371,9 +400,56 @@ func TestVerifC20Helper(t *testing.T) {
 	c20Mark("DONE")
 }
 
+// c20FailCloseOfNextFd makes close(2) of the lowest free descriptor fail with EIO, by a seccomp filter on
+// the whole process: `close(fd) -> EIO` for exactly that descriptor number.  The refused close leaves the
+// descriptor open, so the number is never handed out again: exactly one store is hit.
+func c20FailCloseOfNextFd() error {
+	nr, ok := map[string]uintptr{"amd64": 317, "arm64": 277, "386": 354, "arm": 383, "riscv64": 277, "ppc64le": 358, "s390x": 348}[runtime.GOARCH]
+	if !ok {
+		return fmt.Errorf("no seccomp syscall number for %s", runtime.GOARCH)
+	}
+	f, err := os.Open("/dev/null")
+	if err != nil {
+		return err
+	}
+	fd := uint32(f.Fd())
+	f.Close()
+	type sockFilter struct {
+		code   uint16
+		jt, jf uint8
+		k      uint32
+	}
+	type sockFprog struct {
+		n      uint16
+		filter *sockFilter
+	}
+	argOff := uint32(16) // seccomp_data.args[0], low word
+	if binary.NativeEndian.Uint16([]byte{1, 0}) != 1 {
+		argOff = 20
+	}
+	prog := []sockFilter{
+		{0x20, 0, 0, 0},                                // ld  nr
+		{0x15, 0, 3, uint32(syscall.SYS_CLOSE)},        // jeq close ? next : allow
+		{0x20, 0, 0, argOff},                           // ld  args[0]
+		{0x15, 0, 1, fd},                               // jeq fd ? errno : allow
+		{0x06, 0, 0, 0x00050000 | uint32(syscall.EIO)}, // ret ERRNO|EIO
+		{0x06, 0, 0, 0x7fff0000},                       // ret ALLOW
+	}
+	fp := sockFprog{n: uint16(len(prog)), filter: &prog[0]}
+	if _, _, e := syscall.RawSyscall6(syscall.SYS_PRCTL, 38 /* PR_SET_NO_NEW_PRIVS */, 1, 0, 0, 0, 0); e != 0 {
+		return e
+	}
+	// SECCOMP_SET_MODE_FILTER with SECCOMP_FILTER_FLAG_TSYNC: every thread of the process, present and future
+	if _, _, e := syscall.RawSyscall(nr, 1, 1, uintptr(unsafe.Pointer(&fp))); e != 0 {
+		return e
+	}
+	runtime.KeepAlive(prog)
+	return nil
+}
+
 func c20ErrClass(err error) string {
 	s := err.Error()
-	for _, k := range []string{"permission denied", "no such file", "file too large", "no space left", "input/output error", "required field", "read-only"} {
+	for _, k := range []string{"permission denied", "no such file", "file too large", "no space left", "quota exceeded", "input/output error", "required field", "read-only"} {
 		if strings.Contains(strings.ToLower(s), k) {
 			return k
 		}
@@ -455,6 +531,33 @@ func c20Unquote(s string) string {
 	return s
 }
 
+// every system call through which the content of a file or the entries of the directory can change; the ones the
+// store is expected to use are modelled (openat, write, close, rename), any other one that touches the target, a
+// temporary file or the directory shows up as a `?` entry, which the model never produces
+var c20Traced = []string{"openat", "write", "close", "rename", "renameat", "renameat2", "unlink", "unlinkat",
+	"open", "creat", "openat2", "pwrite64", "writev", "pwritev", "pwritev2", "truncate", "ftruncate", "fallocate",
+	"link", "linkat", "symlink", "symlinkat", "copy_file_range", "sendfile", "splice", "fsync", "fdatasync", "sync_file_range",
+	"mkdir", "mkdirat", "rmdir", "mknod", "mknodat", "dup", "dup2", "dup3", "fcntl"}
+
+var c20TraceSetOnce struct {
+	sync.Once
+	set string
+}
+
+// c20TraceSet: the subset of c20Traced that this strace / architecture knows (an unknown name makes strace refuse to start)
+func c20TraceSet() string {
+	c20TraceSetOnce.Do(func() {
+		var ok []string
+		for _, n := range c20Traced {
+			if exec.Command("strace", "-qq", "-o", "/dev/null", "-e", "trace="+n, "true").Run() == nil {
+				ok = append(ok, n)
+			}
+		}
+		c20TraceSetOnce.set = strings.Join(ok, ",")
+	})
+	return c20TraceSetOnce.set
+}
+
 // one operation as seen by strace: calls on the target / temporary paths between the B and E markers
 type c20Seg struct {
 	calls      []string // canonical calls: open, write:<n>, close, rename (unexpected ones carry a '?')
@@ -466,7 +569,8 @@ type c20Seg struct {
 func c20Segments(sys []c20Sys, dir string) map[int]*c20Seg {
 	segs := map[int]*c20Seg{}
 	var cur *c20Seg
-	fds := map[int64]bool{}
+	fds := map[int64]bool{} // descriptors of temporary files opened the modelled way
+	odd := map[int64]bool{} // descriptors of the target / a temporary file opened any other way
 	target := filepath.Join(dir, "ClientConf")
 	isTmp := func(p string) bool {
 		b := filepath.Base(p)
@@ -518,19 +622,25 @@ func c20Segments(sys []c20Sys, dir string) map[int]*c20Seg {
 					res = fmt.Sprintf("w%d", s.ret)
 				}
 				add("write:"+n, res, s)
+			} else if odd[fd] {
+				add("write?", okfail(s), s)
 			}
-		case "openat":
+		case "openat", "open", "creat", "openat2":
 			if len(q) == 0 || !under(q[0][1]) {
 				continue
 			}
 			p := q[0][1]
-			if isTmp(p) && strings.Contains(s.args, "O_CREAT") && strings.Contains(s.args, "O_TRUNC") && strings.Contains(s.args, "O_WRONLY") {
+			if s.name == "openat" && isTmp(p) && strings.Contains(s.args, "O_CREAT") && strings.Contains(s.args, "O_TRUNC") && strings.Contains(s.args, "O_WRONLY") {
 				add("open", okfail(s), s)
 				if s.ret >= 0 && !s.unfinished {
 					fds[s.ret] = true
 				}
 			} else if cur != nil {
-				add("open?"+filepath.Base(p), okfail(s), s)
+				add(s.name+"?"+filepath.Base(p), okfail(s), s)
+				// a descriptor on the target or on a temporary file opened any other way: what is done through it is of interest
+				if s.ret >= 0 && !s.unfinished && (isTmp(p) || p == target) && !strings.Contains(s.args, "O_RDONLY") {
+					odd[s.ret] = true
+				}
 			}
 		case "close":
 			fd, _ := strconv.ParseInt(strings.TrimSpace(s.args), 10, 64)
@@ -538,6 +648,7 @@ func c20Segments(sys []c20Sys, dir string) map[int]*c20Seg {
 				add("close", okfail(s), s)
 				delete(fds, fd)
 			}
+			delete(odd, fd)
 		case "rename", "renameat", "renameat2":
 			if len(q) < 2 || (!under(q[0][1]) && !under(q[1][1])) {
 				continue
@@ -547,12 +658,40 @@ func c20Segments(sys []c20Sys, dir string) map[int]*c20Seg {
 			} else {
 				add("rename?"+filepath.Base(q[0][1])+">"+filepath.Base(q[1][1]), okfail(s), s)
 			}
-		case "unlink", "unlinkat":
-			if len(q) == 0 || !under(q[0][1]) {
-				continue
+		case "pwrite64", "writev", "pwritev", "pwritev2", "ftruncate", "fallocate", "fsync", "fdatasync", "sync_file_range",
+			"dup", "dup2", "dup3", "fcntl":
+			// through a descriptor of a temporary file (or an oddly opened one): not a call of the modelled store
+			fd, _ := strconv.ParseInt(strings.TrimSpace(strings.SplitN(s.args, ",", 2)[0]), 10, 64)
+			if fds[fd] || odd[fd] {
+				if s.name == "fcntl" && !strings.Contains(s.args, "F_DUPFD") {
+					continue // flags / locks: no content change
+				}
+				add(s.name+"?", okfail(s), s)
 			}
-			if cur != nil {
-				add("unlink?"+filepath.Base(q[0][1]), okfail(s), s)
+		case "copy_file_range", "sendfile", "splice":
+			// the output descriptor is the first (sendfile) or the third (copy_file_range, splice) argument
+			f := strings.Split(s.args, ",")
+			idx := 2
+			if s.name == "sendfile" {
+				idx = 0
+			}
+			if len(f) > idx {
+				fd, _ := strconv.ParseInt(strings.TrimSpace(f[idx]), 10, 64)
+				if fds[fd] || odd[fd] {
+					add(s.name+"?", okfail(s), s)
+				}
+			}
+		default:
+			// path-based: unlink, truncate, link, symlink, mkdir, rmdir, mknod … on anything under the directory
+			hit := ""
+			for _, m := range q {
+				if under(m[1]) && m[1] != filepath.Clean(dir) {
+					hit = filepath.Base(m[1])
+					break
+				}
+			}
+			if hit != "" && cur != nil {
+				add(s.name+"?"+hit, okfail(s), s)
 			}
 		}
 	}
@@ -624,6 +763,23 @@ type c20Env struct {
 	nobody    int // uid to drop to for the unwritable-directory runs (0: not needed, -1: unavailable)
 	mu        sync.Mutex
 	seq       int
+	cnt       map[string]int // what this run has actually exercised (for the floor at the end)
+}
+
+func (e *c20Env) count(key string) {
+	e.out.Count(key)
+	e.mu.Lock()
+	if e.cnt == nil {
+		e.cnt = map[string]int{}
+	}
+	e.cnt[key]++
+	e.mu.Unlock()
+}
+
+func (e *c20Env) seen(key string) int {
+	e.mu.Lock()
+	defer e.mu.Unlock()
+	return e.cnt[key]
 }
 
 func (e *c20Env) newDirs(uid int) (root, dir, snap string) {
@@ -650,6 +806,7 @@ type c20Marks struct {
 	began   map[int]bool
 	ended   map[int]bool
 	errs    map[int]bool
+	errCls  map[int]string
 	reports map[int]map[string]string
 	lastB   int
 	lastE   int
@@ -658,7 +815,7 @@ type c20Marks struct {
 }
 
 func c20ParseMarks(stdout []byte) *c20Marks {
-	m := &c20Marks{began: map[int]bool{}, ended: map[int]bool{}, errs: map[int]bool{}, reports: map[int]map[string]string{}, lastB: -1, lastE: -1}
+	m := &c20Marks{began: map[int]bool{}, ended: map[int]bool{}, errs: map[int]bool{}, errCls: map[int]string{}, reports: map[int]map[string]string{}, lastB: -1, lastE: -1}
 	for _, line := range strings.Split(string(stdout), "\n") {
 		if !strings.HasPrefix(line, "C20MARK ") {
 			continue
@@ -684,6 +841,9 @@ func c20ParseMarks(stdout []byte) *c20Marks {
 				i, _ := strconv.Atoi(f[2])
 				m.ended[i] = true
 				m.errs[i] = f[3] == "1"
+				if len(f) > 4 {
+					m.errCls[i] = f[4]
+				}
 				m.lastE = i
 			}
 		case "R":
@@ -729,8 +889,27 @@ type c20Scenario struct {
 	Init      int    // configuration number written to the target before the run (-1: no file)
 	Inject    string // strace tampering expression ("" = none)
 	Tmpfs     int    // > 0: mount a tmpfs of that many KiB on the directory
-	KillAfter int    // microseconds after READY (kill runs); < 0: run to completion
+	KillAfter int    // microseconds after the trigger (kill runs); < 0: run to completion
+	KillAtB   int    // the trigger: the begin marker of this operation of the loop; <= 0 with AtReady: the READY marker
+	AtReady   bool
 	Strace    bool
+	Then      []c20Op // kill runs: operations of a fresh process on the same directory afterwards (leftovers included)
+}
+
+// c20Start is the state a sequential run starts from.
+type c20Start struct {
+	mem     c20Sym
+	disk    []byte
+	present bool
+}
+
+func (sc *c20Scenario) start() c20Start {
+	st := c20Start{mem: c20Sym{Base: sc.Init, Gen: -1, Pub: -1, Dec: -1, Sub: -1}}
+	if sc.Init >= 0 {
+		st.disk, _ = proto.Marshal(c20Conf(sc.Init))
+		st.present = true
+	}
+	return st
 }
 
 func (sc c20Scenario) replay() string {
@@ -738,20 +917,24 @@ func (sc c20Scenario) replay() string {
 	return "c20scenario " + string(b)
 }
 
-// runHelper starts the helper (optionally under strace), optionally kills it, and returns its
-// markers, the parsed strace output and the directories.
-func (e *c20Env) runHelper(sc *c20Scenario) (marks *c20Marks, sys []c20Sys, root string, note string) {
+// prepare makes the directories of a scenario (optionally a tmpfs) and the initial file; cleanup unmounts and removes.
+func (e *c20Env) prepare(sc *c20Scenario) (root string, note string, cleanup func()) {
 	uid := sc.Job.DropUID
-	root, dir, snap := e.newDirs(uid)
+	root, dir, _ := e.newDirs(uid)
 	sc.Job.Dir = dir
-	if !sc.Job.Loop {
-		sc.Job.Snap = snap
+	mounted := false
+	cleanup = func() {
+		if mounted {
+			_ = syscall.Unmount(dir, syscall.MNT_DETACH)
+		}
+		_ = os.Chmod(dir, 0o755)
+		os.RemoveAll(root)
 	}
 	if sc.Tmpfs > 0 {
 		if err := syscall.Mount("tmpfs", dir, "tmpfs", 0, fmt.Sprintf("size=%dk,mode=0755", sc.Tmpfs)); err != nil {
-			return nil, nil, root, "skip:tmpfs-unavailable"
+			return root, "skip:tmpfs-unavailable", cleanup
 		}
-		defer func() { _ = syscall.Unmount(dir, syscall.MNT_DETACH) }()
+		mounted = true
 	}
 	if sc.Init >= 0 {
 		b, err := proto.Marshal(c20Conf(sc.Init))
@@ -759,20 +942,33 @@ func (e *c20Env) runHelper(sc *c20Scenario) (marks *c20Marks, sys []c20Sys, root
 			e.t.Fatalf("initial configuration %d does not marshal", sc.Init)
 		}
 		if err := os.WriteFile(filepath.Join(dir, "ClientConf"), b, 0o644); err != nil {
-			return nil, nil, root, "skip:init-write-failed"
+			return root, "skip:init-write-failed", cleanup
 		}
 		if uid > 0 {
 			_ = os.Chown(filepath.Join(dir, "ClientConf"), uid, uid)
 		}
 	}
-	jobPath := filepath.Join(root, "job.json")
-	jb, _ := json.Marshal(sc.Job)
+	return root, "", cleanup
+}
+
+// exec starts the helper for one job on the prepared directory (optionally under strace), optionally kills
+// it, and returns its markers and the parsed strace output.
+func (e *c20Env) exec(sc *c20Scenario, job *c20Job, root, tag string) (marks *c20Marks, sys []c20Sys, note string) {
+	if !job.Loop {
+		job.Snap = filepath.Join(root, "snap"+tag)
+		_ = os.MkdirAll(job.Snap, 0o755)
+		if job.DropUID > 0 {
+			_ = os.Chown(job.Snap, job.DropUID, job.DropUID)
+		}
+	}
+	jobPath := filepath.Join(root, "job"+tag+".json")
+	jb, _ := json.Marshal(job)
 	_ = os.WriteFile(jobPath, jb, 0o644)
-	tracePath := filepath.Join(root, "strace.txt")
+	tracePath := filepath.Join(root, "strace"+tag+".txt")
 	helperArgs := []string{"-test.run=^TestVerifC20Helper$", "-test.count=1", "-test.timeout=120s"}
 	var cmd *exec.Cmd
 	if sc.Strace {
-		a := []string{"-f", "-qq", "-s", "48", "-o", tracePath, "-e", "trace=openat,write,close,rename,renameat,renameat2,unlink,unlinkat"}
+		a := []string{"-f", "-qq", "-s", "48", "-o", tracePath, "-e", "trace=" + c20TraceSet()}
 		if sc.Inject != "" {
 			a = append(a, "-e", "inject="+sc.Inject)
 		}
@@ -791,41 +987,47 @@ func (e *c20Env) runHelper(sc *c20Scenario) (marks *c20Marks, sys []c20Sys, root
 		e.t.Fatal(err)
 	}
 	if err := cmd.Start(); err != nil {
-		return nil, nil, root, "skip:start-failed:" + err.Error()
+		return nil, nil, "skip:start-failed:" + err.Error()
+	}
+	kill := job.Loop && sc.KillAfter >= 0
+	trigger := fmt.Sprintf("C20MARK B %d\n", sc.KillAtB)
+	if sc.AtReady {
+		trigger = "C20MARK READY"
 	}
 	var outb bytes.Buffer
 	var omu sync.Mutex
-	readyCh := make(chan int, 1)
+	trigCh := make(chan int, 1)
 	doneRead := make(chan struct{})
 	go func() {
 		defer close(doneRead)
 		rd := bufio.NewReader(pr)
 		sent := false
+		pid := 0
 		for {
 			line, err := rd.ReadString('\n')
+			if !sent && strings.HasPrefix(line, "C20MARK READY") {
+				if f := strings.Fields(line); len(f) > 2 {
+					pid, _ = strconv.Atoi(f[2])
+				}
+			}
+			if !sent && kill && pid > 0 && (line == trigger || (sc.AtReady && strings.HasPrefix(line, trigger))) {
+				trigCh <- pid // before anything else: the delay counts from here
+				sent = true
+			}
 			omu.Lock()
 			outb.WriteString(line)
 			omu.Unlock()
-			if !sent && strings.HasPrefix(line, "C20MARK READY") {
-				f := strings.Fields(line)
-				pid := 0
-				if len(f) > 2 {
-					pid, _ = strconv.Atoi(f[2])
-				}
-				readyCh <- pid
-				sent = true
-			}
 			if err != nil {
 				if !sent {
-					readyCh <- -1
+					trigCh <- -1
 				}
 				return
 			}
 		}
 	}()
-	if sc.KillAfter >= 0 {
+	if kill {
 		select {
-		case pid := <-readyCh:
+		case pid := <-trigCh:
 			if pid > 0 {
 				if sc.KillAfter > 0 {
 					c20SleepMicros(sc.KillAfter)
@@ -877,19 +1079,14 @@ func c20SleepMicros(us int) {
 }
 
 // checkSequential evaluates a completed (non-loop) run: one correspondence case + oracle per operation.
-func (e *c20Env) checkSequential(sc *c20Scenario, marks *c20Marks, sys []c20Sys, root string) {
+func (e *c20Env) checkSequential(sc *c20Scenario, job *c20Job, start c20Start, marks *c20Marks, sys []c20Sys, replayTag string) {
 	out := e.out
-	dir := sc.Job.Dir
+	dir := job.Dir
 	segs := c20Segments(sys, dir)
 	// expected state, tracked by the harness independently of the model
-	mem := c20Sym{Base: sc.Init, Gen: -1, Pub: -1, Dec: -1, Sub: -1}
-	var disk []byte
-	diskPresent := false
-	if sc.Init >= 0 {
-		disk, _ = proto.Marshal(c20Conf(sc.Init))
-		diskPresent = true
-	}
-	for i, op := range sc.Job.Ops {
+	mem := start.mem
+	disk, diskPresent := start.disk, start.present
+	for i, op := range job.Ops {
 		for _, p := range op.Pre {
 			if p == "rmdir" {
 				disk, diskPresent = nil, false
@@ -909,20 +1106,20 @@ func (e *c20Env) checkSequential(sc *c20Scenario, marks *c20Marks, sys []c20Sys,
 			out.Count("sequential:old-equals-new")
 			return
 		}
-		out.Count("op:" + op.Kind)
+		e.count("op:" + op.Kind)
 		if op.Kind == "conf" {
 			out.Count("class:" + []string{"tiny", "small", "medium", "flat-large", "large", "bad", "subnets"}[c20Class(op.K)])
 		}
 		if failed {
-			out.Count("result:err:" + rep["errclass"])
+			e.count("result:err:" + rep["errclass"])
 		} else {
-			out.Count("result:ok")
+			e.count("result:ok")
 		}
 		// ---- what the implementation left behind
 		var file []byte
 		filePresent := rep["tgt"] == "present"
 		if filePresent {
-			b, err := os.ReadFile(filepath.Join(sc.Job.Snap, fmt.Sprint(i)))
+			b, err := os.ReadFile(filepath.Join(job.Snap, fmt.Sprint(i)))
 			if err != nil {
 				out.Count("sequential:snapshot-missing")
 				return
@@ -946,7 +1143,7 @@ func (e *c20Env) checkSequential(sc *c20Scenario, marks *c20Marks, sys []c20Sys,
 			memCls = "new"
 		}
 		// ---- property oracle
-		replay := sc.replay() + fmt.Sprintf(" op=%d", i)
+		replay := sc.replay() + fmt.Sprintf(" %sop=%d", replayTag, i)
 		out.Checked()
 		if filePresent {
 			parsed, perr := c20ParseBytes(file)
@@ -975,7 +1172,7 @@ func (e *c20Env) checkSequential(sc *c20Scenario, marks *c20Marks, sys []c20Sys,
 			}
 		}
 		out.Checked()
-		if op.Kind == "conf" && failed && memCls != "old" {
+		if (op.Kind == "conf" || op.Kind == "confnil") && failed && memCls != "old" {
 			out.OracleFail("C20:memory-not-rolled-back", fmt.Sprintf("SetClientConf #%d failed (%s) but the configuration in memory is %s", i, rep["errclass"], memCls), replay)
 		}
 		if !failed && memCls != "new" {
@@ -995,16 +1192,16 @@ func (e *c20Env) checkSequential(sc *c20Scenario, marks *c20Marks, sys []c20Sys,
 				if failed {
 					ret = "err"
 				}
-				line := fmt.Sprintf("store|%s|%s|%s|%s|%s", vlib.B(op.Kind == "conf"), c20Content(disk, diskPresent), oldField, newField, strings.Join(seg.results, ","))
+				line := fmt.Sprintf("store|%s|%s|%s|%s|%s", vlib.B(op.Kind == "conf" || op.Kind == "confnil"), c20Content(disk, diskPresent), oldField, newField, strings.Join(seg.results, ","))
 				impl := fmt.Sprintf("%s|%s|target=%s|tmp=%s|mem=%s", calls, ret, cls, rep["tmp"], memCls)
 				out.Case(line, impl, !failed || len(seg.calls) > 0)
-				out.Count("calls:" + c20Shape(seg))
+				e.count("calls:" + c20Shape(seg))
 			}
 		}
 		// ---- advance the expectation from what the implementation reported (the oracle above has
 		// already compared it with old/new)
 		if failed {
-			if op.Kind != "conf" {
+			if op.Kind != "conf" && op.Kind != "confnil" {
 				mem = newSym
 			}
 		} else {
@@ -1041,50 +1238,78 @@ func c20Shape(seg *c20Seg) string {
 }
 
 // checkKilled evaluates a loop run that was killed: the file must be the configuration before or
-// the one being stored by the operation in progress (or exactly the last one when none was).
-func (e *c20Env) checkKilled(sc *c20Scenario, marks *c20Marks, sys []c20Sys) {
+// the one being stored by the operation in progress (or exactly the last one stored when none was).
+// In a directory on a (nearly) full tmpfs stores fail with ENOSPC: a failed store leaves the file as it was.
+// Returns the symbolic configuration the file holds (ok = it matched one).
+func (e *c20Env) checkKilled(sc *c20Scenario, marks *c20Marks, sys []c20Sys) (fileSym c20Sym, filePresent bool, ok bool) {
 	out := e.out
 	dir := sc.Job.Dir
 	replay := sc.replay()
 	// replay the operations symbolically up to the last one that began
-	st := c20Sym{Base: sc.Init, Gen: -1, Pub: -1, Dec: -1, Sub: -1}
-	prev := st
-	prevPresent := sc.Init >= 0
+	mem := c20Sym{Base: sc.Init, Gen: -1, Pub: -1, Dec: -1, Sub: -1}
+	disk, diskPresent := mem, sc.Init >= 0
+	var cur c20Sym // what the operation in progress stores
 	n := len(sc.Job.Ops)
 	inProgress := marks.lastB >= 0 && !marks.ended[marks.lastB]
+	failures := 0
 	for i := 0; i <= marks.lastB; i++ {
+		op := sc.Job.Ops[i%n]
+		newSym := mem.apply(op)
+		if i == marks.lastB && inProgress {
+			cur = newSym
+			break
+		}
 		if marks.errs[i] {
-			// no failure is injected in kill runs; a failing store here is reported, not assumed away
-			out.OracleFail("C20:healthy-store-failed", fmt.Sprintf("operation %d failed in a healthy directory", i), replay)
-			return
+			full := marks.errCls[i] == "no_space_left" || marks.errCls[i] == "quota_exceeded"
+			switch {
+			case sc.Tmpfs > 0 && full:
+				failures++
+				e.count("kill:store-failed-on-full-filesystem")
+			case full:
+				// the machine's temporary file system filled up (parallel multi-megabyte runs, other checks): not a finding
+				e.count("skip:env-full")
+				return
+			default:
+				// no other failure is injected in kill runs; a failing store here is reported, not assumed away
+				out.OracleFail("C20:healthy-store-failed", fmt.Sprintf("operation %d failed (%s) in a healthy directory", i, marks.errCls[i]), replay)
+				return
+			}
+			if op.Kind != "conf" && op.Kind != "confnil" {
+				mem = newSym // the in-place setters keep their modification in memory
+			}
+			continue
 		}
-		prev = st
-		if i > 0 {
-			prevPresent = true
-		}
-		st = st.apply(sc.Job.Ops[i%n])
+		mem, disk, diskPresent = newSym, newSym, true
 	}
-	var cands []*pb.ClientConf
+	type cand struct {
+		sym  c20Sym
+		conf *pb.ClientConf
+	}
+	var cands []cand
 	absentOK := false
 	switch {
 	case marks.lastB < 0:
-		out.Count("kill:before-first-store")
-		if sc.Init >= 0 {
-			cands = append(cands, st.materialise())
+		e.count("kill:before-first-store")
+		if diskPresent {
+			cands = append(cands, cand{disk, disk.materialise()})
 		} else {
 			absentOK = true
 		}
 	case inProgress:
-		out.Count("kill:during-store")
-		cands = append(cands, st.materialise())
-		if prevPresent {
-			cands = append(cands, prev.materialise())
+		e.count("kill:during-store")
+		cands = append(cands, cand{cur, cur.materialise()})
+		if diskPresent {
+			cands = append(cands, cand{disk, disk.materialise()})
 		} else {
 			absentOK = true
 		}
 	default:
-		out.Count("kill:between-stores")
-		cands = append(cands, st.materialise())
+		e.count("kill:between-stores")
+		if diskPresent {
+			cands = append(cands, cand{disk, disk.materialise()})
+		} else {
+			absentOK = true // every store so far failed
+		}
 	}
 	out.Checked()
 	got, err := c20ReadReal(dir)
@@ -1093,31 +1318,40 @@ func (e *c20Env) checkKilled(sc *c20Scenario, marks *c20Marks, sys []c20Sys) {
 	switch {
 	case rerr != nil && os.IsNotExist(rerr):
 		if !absentOK {
-			out.OracleFail("C20:target-missing", fmt.Sprintf("killed %dus after start (last began %d, ended %d): no ClientConf file", sc.KillAfter, marks.lastB, marks.lastE), replay)
+			out.OracleFail("C20:target-missing", fmt.Sprintf("killed %dus after the trigger (last began %d, ended %d): no ClientConf file", sc.KillAfter, marks.lastB, marks.lastE), replay)
 		} else {
-			out.Count("kill:file-absent-as-before")
+			e.count("kill:file-absent-as-before")
+			ok = true
 		}
 	case err != nil:
-		out.OracleFail("C20:target-unparseable", fmt.Sprintf("killed %dus after start (last began %d, ended %d): the real reader fails: %v (%d bytes)", sc.KillAfter, marks.lastB, marks.lastE, err, len(raw)), replay)
+		out.OracleFail("C20:target-unparseable", fmt.Sprintf("killed %dus after the trigger (last began %d, ended %d): the real reader fails: %v (%d bytes)", sc.KillAfter, marks.lastB, marks.lastE, err, len(raw)), replay)
 	default:
 		for i, c := range cands {
-			if proto.Equal(got, c) {
+			if proto.Equal(got, c.conf) {
 				which = i
 				break
 			}
 		}
 		if which < 0 {
-			out.OracleFail("C20:target-neither-old-nor-new", fmt.Sprintf("killed %dus after start (last began %d, ended %d): the file (%d bytes, generation %d) is neither the previous nor the new configuration", sc.KillAfter, marks.lastB, marks.lastE, len(raw), got.GetGeneration()), replay)
-		} else if inProgress {
-			out.Count([]string{"kill:file-is-new", "kill:file-is-old"}[which])
+			out.OracleFail("C20:target-neither-old-nor-new", fmt.Sprintf("killed %dus after the trigger (last began %d, ended %d): the file (%d bytes, generation %d) is neither the previous nor the new configuration", sc.KillAfter, marks.lastB, marks.lastE, len(raw), got.GetGeneration()), replay)
+		} else {
+			fileSym, filePresent, ok = cands[which].sym, true, true
+			if inProgress {
+				e.count([]string{"kill:file-is-new", "kill:file-is-old"}[which])
+			}
 		}
 	}
+	st, prevPresent, prev := cur, diskPresent, disk
 	// leftover temporary file: evidence of where the kill landed (and it must be a prefix of the new bytes)
 	tmps := c20ListTmp(dir)
 	if len(tmps) > 0 {
-		out.Count("kill:tmp-left-behind")
+		e.count("kill:tmp-left-behind")
 	}
 	for name, sz := range tmps {
+		if failures > 0 {
+			e.count("kill:leftover-of-failed-store")
+			continue // leftovers of the failed stores: expected (see level_note), not attributable to one store
+		}
 		if !inProgress {
 			out.OracleFail("C20:tmp-without-store", "temporary file "+name+" exists although no store was in progress", replay)
 			continue
@@ -1128,15 +1362,17 @@ func (e *c20Env) checkKilled(sc *c20Scenario, marks *c20Marks, sys []c20Sys) {
 			out.Checked()
 			if !bytes.HasPrefix(nb, tb) {
 				out.OracleFail("C20:tmp-not-a-prefix", fmt.Sprintf("temporary file (%d bytes) is not a prefix of the new configuration's bytes", sz), replay)
-			} else if len(tb) < len(nb) {
-				out.Count("kill:tmp-partial")
+			} else if len(tb) < len(nb) && len(tb) > 0 {
+				e.count("kill:tmp-partial")
+			} else if len(tb) == 0 {
+				e.count("kill:tmp-empty")
 			} else {
-				out.Count("kill:tmp-complete")
+				e.count("kill:tmp-complete")
 			}
 		}
 	}
 	// crash-prefix correspondence
-	if sc.Strace && inProgress {
+	if sc.Strace && inProgress && failures == 0 {
 		seg := c20Segments(sys, dir)[marks.lastB]
 		nb, nbytes, nok := c20MarshalField(st.materialise())
 		if seg == nil || seg.unfinished != "" || !nok || rerr != nil && !os.IsNotExist(rerr) {
@@ -1166,6 +1402,7 @@ func (e *c20Env) checkKilled(sc *c20Scenario, marks *c20Marks, sys []c20Sys) {
 		out.Case(line, fmt.Sprintf("%s|target=%s|tmp=%s", calls, cls, tmp), len(seg.calls) > 0)
 		out.Count(fmt.Sprintf("crashcase:after-%d-calls", len(seg.calls)))
 	}
+	return
 }
 
 // ---------------------------------------------------------------------------------------------
@@ -1274,6 +1511,16 @@ func (e *c20Env) scenarioRenameFails(r *vlib.Rand) *c20Scenario {
 	return sc
 }
 
+func (e *c20Env) scenarioCloseFails(r *vlib.Rand) *c20Scenario {
+	sc := e.scenarioHealthy(r)
+	for i := range sc.Job.Ops {
+		if r.Chance(1, 3) {
+			sc.Job.Ops[i].Pre = append(sc.Job.Ops[i].Pre, "closefail")
+		}
+	}
+	return sc
+}
+
 func (e *c20Env) scenarioTmpfs(r *vlib.Rand) *c20Scenario {
 	sc := e.scenarioHealthy(r)
 	sc.Tmpfs = []int{16, 64, 256, 1024}[r.Intn(4)]
@@ -1283,6 +1530,41 @@ func (e *c20Env) scenarioTmpfs(r *vlib.Rand) *c20Scenario {
 	// make sure something does not fit
 	sc.Job.Ops[r.Intn(len(sc.Job.Ops))] = c20Op{Kind: "conf", K: c20KOf(r, c20FlatLarge)}
 	return sc
+}
+
+func c20IsLarge(op c20Op) bool {
+	return op.Kind == "conf" && (c20Class(op.K) == c20Large || c20Class(op.K) == c20FlatLarge)
+}
+
+// c20KillDelay: microseconds between the begin marker of the chosen operation and the SIGKILL, drawn so that
+// it mostly falls inside that store (marshal, open, write, close, rename) and sometimes into the next ones.
+func c20KillDelay(r *vlib.Rand, op c20Op, strace bool) int {
+	var d int
+	switch {
+	case c20IsLarge(op):
+		d = []int{r.Intn(1500), r.Intn(4000), r.Intn(12000), r.Intn(40000)}[r.Intn(4)]
+	case op.Kind == "conf" && c20Class(op.K) == c20Medium:
+		d = []int{r.Intn(150), r.Intn(500), r.Intn(3000)}[r.Intn(3)]
+	default:
+		d = []int{r.Intn(60), r.Intn(250), r.Intn(2000)}[r.Intn(3)]
+	}
+	if strace {
+		d *= 4
+	}
+	return d
+}
+
+// c20FollowUp: what a fresh process stores into the directory after the kill (small ones first: a store that
+// reuses anything an interrupted larger store left behind must not inherit its bytes)
+func c20FollowUp(r *vlib.Rand) []c20Op {
+	ops := []c20Op{{Kind: "conf", K: c20SmallK(r)}}
+	for _, op := range c20DistinctOps(r, r.Range(1, 3), false, false) {
+		if op.Kind == ops[len(ops)-1].Kind && op.K == ops[len(ops)-1].K {
+			continue
+		}
+		ops = append(ops, op)
+	}
+	return ops
 }
 
 func (e *c20Env) scenarioKill(r *vlib.Rand, strace bool) *c20Scenario {
@@ -1319,39 +1601,96 @@ func (e *c20Env) scenarioKill(r *vlib.Rand, strace bool) *c20Scenario {
 	if r.Chance(3, 4) {
 		init = c20SmallK(r)
 	}
-	var delay int
-	switch r.Intn(4) {
-	case 0:
-		delay = r.Intn(300)
-	case 1:
-		delay = r.Intn(3000)
-	case 2:
-		delay = r.Intn(20000)
-	default:
-		delay = r.Intn(80000)
+	sc := &c20Scenario{Job: c20Job{Ops: ops, Loop: true}, Init: init, Strace: strace}
+	if r.Chance(1, 12) {
+		// around the start of the process: before the first store, or in it
+		sc.AtReady, sc.KillAfter = true, r.Intn(400)
+		if strace {
+			sc.KillAfter *= 4
+		}
+		return sc
 	}
-	if strace {
-		delay *= 4
+	// the timer starts at the begin marker of a PRNG-chosen iteration, so that the file on disk has already been
+	// replaced a few times (by large configurations too) when the kill lands; large stores are chosen more often
+	limit := 50
+	for _, op := range ops {
+		if c20IsLarge(op) {
+			limit = 4 * len(ops)
+		}
 	}
-	return &c20Scenario{Job: c20Job{Ops: ops, Loop: true}, Init: init, KillAfter: delay, Strace: strace}
+	sc.KillAtB = r.Intn(limit)
+	for try := 0; try < 2 && !c20IsLarge(ops[sc.KillAtB%len(ops)]); try++ {
+		sc.KillAtB = r.Intn(limit)
+	}
+	sc.KillAfter = c20KillDelay(r, ops[sc.KillAtB%len(ops)], strace)
+	if !strace && r.Chance(1, 3) {
+		sc.Then = c20FollowUp(r)
+	}
+	return sc
+}
+
+// scenarioKillFull: the same on a small tmpfs that the multi-megabyte stores fill up: stores fail with ENOSPC
+// and leave their temporary files behind, the kill lands among failing and succeeding stores, and a fresh
+// process then stores again into the directory as it was left.
+func (e *c20Env) scenarioKillFull(r *vlib.Rand) *c20Scenario {
+	big := c20KOf(r, c20FlatLarge)
+	ops := []c20Op{{Kind: "conf", K: c20SmallK(r)}, {Kind: "conf", K: big}, {Kind: "gen", K: 7000 + r.Intn(1000)},
+		{Kind: "conf", K: big + c20nClasses*10}, {Kind: "decoys", K: 300 + r.Intn(100)}}
+	if r.Bool() {
+		ops = ops[1:]
+	}
+	sc := &c20Scenario{Job: c20Job{Ops: ops, Loop: true}, Init: c20KOf(r, c20Small), Tmpfs: []int{1024, 3072, 4096, 6144}[r.Intn(4)]}
+	sc.KillAtB = r.Intn(3 * len(ops))
+	sc.KillAfter = c20KillDelay(r, ops[sc.KillAtB%len(ops)], false)
+	sc.Then = c20FollowUp(r)
+	return sc
 }
 
 func (e *c20Env) run(sc *c20Scenario, kind string) {
-	marks, sys, root, note := e.runHelper(sc)
-	defer os.RemoveAll(root)
-	e.out.Count("scenario:" + kind)
-	if note != "" {
-		e.out.Count(strings.SplitN(note, " ", 2)[0])
-		if strings.HasPrefix(note, "skip:helper-never-ready") || strings.HasPrefix(note, "skip:helper-timeout") {
+	root, note, cleanup := e.prepare(sc)
+	defer cleanup()
+	e.count("scenario:" + kind)
+	skipped := func(note string) bool {
+		if note == "" {
+			return false
+		}
+		e.count(strings.SplitN(note, " ", 2)[0])
+		if strings.HasPrefix(note, "skip:helper-never-ready") || strings.HasPrefix(note, "skip:helper-timeout") || strings.HasPrefix(note, "skip:helper-fatal") {
 			e.out.Note(kind + ": " + note)
 		}
+		return true
+	}
+	if skipped(note) {
 		return
 	}
-	if sc.Job.Loop {
-		e.checkKilled(sc, marks, sys)
-	} else {
-		e.checkSequential(sc, marks, sys, root)
+	marks, sys, note := e.exec(sc, &sc.Job, root, "")
+	if skipped(note) {
+		return
 	}
+	if !sc.Job.Loop {
+		e.checkSequential(sc, &sc.Job, sc.start(), marks, sys, "")
+		return
+	}
+	fileSym, present, ok := e.checkKilled(sc, marks, sys)
+	if !ok || len(sc.Then) == 0 {
+		return
+	}
+	// a fresh process on the directory as the killed one left it (temporary files of interrupted and failed
+	// stores included): it reads the file, then stores; each store must again leave exactly old or new
+	start := c20Start{mem: fileSym, present: present}
+	if present {
+		start.disk, _ = os.ReadFile(filepath.Join(sc.Job.Dir, "ClientConf"))
+	} else {
+		start.mem = c20Sym{Base: -1, Gen: -1, Pub: -1, Dec: -1, Sub: -1}
+	}
+	job := &c20Job{Dir: sc.Job.Dir, Ops: sc.Then}
+	seq := &c20Scenario{Job: *job}
+	marks2, sys2, note := e.exec(seq, job, root, "-then")
+	if skipped(note) {
+		return
+	}
+	e.count("scenario:store-after-kill")
+	e.checkSequential(sc, job, start, marks2, sys2, "then-")
 }
 
 func TestVerifC20(t *testing.T) {
@@ -1408,6 +1747,10 @@ func TestVerifC20(t *testing.T) {
 			{Job: c20Job{Ops: []c20Op{{Kind: "conf", K: 1}, {Kind: "subnets", K: 3}, {Kind: "conf", K: 3}}}, Init: 6, Inject: "rename,renameat,renameat2:error=EIO", KillAfter: -1, Strace: true},
 			// a full file system
 			{Job: c20Job{Ops: []c20Op{{Kind: "conf", K: 1}, {Kind: "conf", K: 3}, {Kind: "conf", K: 8}, {Kind: "gen", K: 81}}}, Init: 6, Tmpfs: 64, KillAfter: -1, Strace: true},
+			// close(2) of the temporary file fails (after every byte was accepted): nothing may be renamed
+			{Job: c20Job{Ops: []c20Op{{Kind: "conf", K: 1}, {Kind: "conf", K: 8, Pre: []string{"closefail"}}, {Kind: "gen", K: 82}, {Kind: "decoys", K: 9, Pre: []string{"closefail"}}, {Kind: "conf", K: 3}}}, Init: 6, KillAfter: -1, Strace: true},
+			// SetClientConf(nil): marshals to nothing; pinned outcome: the file is the empty configuration, no error
+			{Job: c20Job{Ops: []c20Op{{Kind: "conf", K: 1}, {Kind: "confnil"}, {Kind: "subnets", K: 7}, {Kind: "conf", K: 3}, {Kind: "confnil", Pre: []string{"fsize:0"}}, {Kind: "conf", K: 2, Pre: []string{"rmdir"}}, {Kind: "subnets", K: 8, Pre: []string{"mkdir"}}}}, Init: 6, KillAfter: -1, Strace: true},
 		}
 		for i, sc := range corpus {
 			e.run(sc, fmt.Sprintf("corpus-%d", i))
@@ -1423,6 +1766,7 @@ func TestVerifC20(t *testing.T) {
 		}{
 			{"healthy", e.scenarioHealthy}, {"fsize", e.scenarioFsize}, {"vanish", e.scenarioVanish},
 			{"readonly", e.scenarioReadOnly}, {"rename-fails", e.scenarioRenameFails}, {"tmpfs", e.scenarioTmpfs},
+			{"close-fails", e.scenarioCloseFails},
 		}
 		scs := make([]*c20Scenario, n)
 		kinds := make([]string, n)
@@ -1433,20 +1777,92 @@ func TestVerifC20(t *testing.T) {
 		c20Parallel(4, n, func(i int) { e.run(scs[i], kinds[i]) })
 	}
 
-	// ---- kill at a PRNG-chosen instant (oracle); a part of them under strace (crash-prefix cases)
+	// ---- without strace the fault-injection runs still go through the oracle (no system-call correspondence);
+	// the floor below then reports the run as incomplete
+	if e.strace == "" {
+		n := vlib.Budget(12, 100)
+		gens := []func(*vlib.Rand) *c20Scenario{e.scenarioHealthy, e.scenarioFsize, e.scenarioVanish, e.scenarioReadOnly, e.scenarioTmpfs, e.scenarioCloseFails}
+		for i := 0; i < n; i++ {
+			sc := gens[i%len(gens)](r)
+			sc.Strace = false
+			e.run(sc, "no-strace")
+		}
+	}
+
+	// ---- kill at a PRNG-chosen instant (oracle); a part of them under strace (crash-prefix cases), a part on a
+	// file system that fills up, a part followed by a fresh process storing into the directory as it was left
+	n := vlib.Budget(160, 5000)
 	{
-		n := vlib.Budget(160, 5000)
 		scs := make([]*c20Scenario, n)
 		kinds := make([]string, n)
 		for i := 0; i < n; i++ {
 			st := e.strace != "" && i%5 == 0
-			scs[i] = e.scenarioKill(r, st)
-			kinds[i] = "kill"
-			if st {
-				kinds[i] = "kill-strace"
+			switch {
+			case i%8 == 3:
+				scs[i], kinds[i] = e.scenarioKillFull(r), "kill-full-filesystem"
+			case st:
+				scs[i], kinds[i] = e.scenarioKill(r, true), "kill-strace"
+			default:
+				scs[i], kinds[i] = e.scenarioKill(r, false), "kill"
 			}
 		}
 		c20Parallel(4, n, func(i int) { e.run(scs[i], kinds[i]) })
+	}
+
+	// ---- floor: what has this run actually exercised?  The instant of a kill is not under the harness's
+	// control, so kills are topped up (large stores only, the window where partial files exist) before anything
+	// is concluded; what still is missing then makes the run INCOMPLETE (the harness fails), never a pass.
+	needDuring, needPartial := n/4, 5
+	for round := 0; round < 4 && (e.seen("kill:during-store") < needDuring || e.seen("kill:tmp-partial") < needPartial); round++ {
+		m := n / 4
+		scs := make([]*c20Scenario, m)
+		for i := range scs {
+			big := c20KOf(r, c20FlatLarge)
+			ops := []c20Op{{Kind: "conf", K: big}, {Kind: "conf", K: c20KOf(r, c20Large)}, {Kind: "conf", K: big + c20nClasses*10}}
+			sc := &c20Scenario{Job: c20Job{Ops: ops, Loop: true}, Init: c20SmallK(r), KillAtB: r.Intn(6)}
+			sc.KillAfter = c20KillDelay(r, ops[0], false)
+			scs[i] = sc
+		}
+		c20Parallel(4, m, func(i int) { e.run(scs[i], "kill-top-up") })
+	}
+	var missing []string
+	need := func(key string, min int, why string) {
+		if got := e.seen(key); got < min {
+			missing = append(missing, fmt.Sprintf("%s = %d < %d (%s)", key, got, min, why))
+		}
+	}
+	if e.strace == "" {
+		missing = append(missing, "strace not found: no system-call correspondence at all")
+	} else {
+		need("calls:open,write,close,rename", 10, "complete stores under strace")
+		need("calls:open!", 1, "the temporary file cannot be created")
+		need("calls:open,write,close,rename!", 1, "the rename fails")
+		need("result:err:required_field", 1, "a configuration that does not marshal")
+		if e.seen("skip:helper-fatal:seccomp") == 0 {
+			need("calls:open,write,close!", 1, "close(2) of the temporary file fails")
+		} else {
+			out.Note("C20: seccomp filters are not available here: a failing close(2) was not injected")
+		}
+	}
+	need("kill:during-store", needDuring, "kills that landed inside a store")
+	need("kill:tmp-partial", needPartial, "kills that left a partially written temporary file")
+	need("kill:file-is-new", 1, "kills after the rename")
+	need("kill:file-is-old", 1, "kills before the rename")
+	need("scenario:store-after-kill", n/20, "a fresh process storing after a kill")
+	need("result:err:file_too_large", 1, "RLIMIT_FSIZE")
+	need("result:err:no_such_file", 1, "vanished directory")
+	if os.Geteuid() == 0 {
+		need("result:err:permission_denied", 1, "unwritable directory")
+		if e.seen("skip:tmpfs-unavailable") == 0 {
+			need("result:err:no_space_left", 1, "full file system")
+			need("kill:store-failed-on-full-filesystem", 1, "kill on a full file system")
+		} else {
+			out.Note("C20: tmpfs cannot be mounted here: the full-file-system runs were skipped")
+		}
+	}
+	if len(missing) > 0 {
+		out.Note("C20 INCOMPLETE: " + strings.Join(missing, "; "))
+		t.Fatalf("C20 harness incomplete (not a violation of the property): %s", strings.Join(missing, "; "))
 	}
 }
 
@@ -1486,6 +1902,8 @@ func c20Replay(t *testing.T, e *c20Env, path string) {
 	for _, l := range lines {
 		if j := strings.LastIndex(l, "} op="); j >= 0 {
 			l = l[:j+1]
+		} else if j := strings.LastIndex(l, "} then-op="); j >= 0 {
+			l = l[:j+1]
 		}
 		var sc c20Scenario
 		if err := json.Unmarshal([]byte(l), &sc); err != nil {
@@ -1499,8 +1917,153 @@ func c20Replay(t *testing.T, e *c20Env, path string) {
 		for i := 0; i < reps; i++ {
 			c := sc
 			c.Job.Ops = append([]c20Op(nil), sc.Job.Ops...)
+			c.Then = append([]c20Op(nil), sc.Then...)
 			e.run(&c, "replay")
 		}
 		fmt.Println("REPLAY scenario:", l)
 	}
+}
+
+// ---------------------------------------------------------------------------------------------
+// mutual exclusion of the stores (run under the race detector by the plan's second harness entry)
+//
+// The model lets one store run at a time: `begin` while a store is pending is a no-op, which stands for the
+// struct mutex every setter takes.  That assumption is tied here: all five setters and the locking getters are
+// called concurrently on one instance under `go test -race`; while they run the file is read back all the time
+// and must always be one complete configuration, and at the end it must be the configuration in memory.
+
+func c20RaceConf(g int) *pb.ClientConf {
+	gen := uint32(g)
+	return &pb.ClientConf{Generation: &gen, DefaultPubkey: c20Key(g, 32), DecoyList: &pb.DecoyList{TlsDecoys: c20Decoys(g, 3)}}
+}
+
+func TestVerifC20Race(t *testing.T) {
+	if os.Getenv("C20_JOB") != "" {
+		return
+	}
+	out := vlib.Open("C20race")
+	defer out.Close()
+	log.SetOutput(io.Discard)
+	dir, err := os.MkdirTemp("", "cjv-c20race-")
+	if err != nil {
+		t.Fatal(err)
+	}
+	defer os.RemoveAll(dir)
+	first, _ := proto.Marshal(c20RaceConf(1))
+	if err := os.WriteFile(filepath.Join(dir, "ClientConf"), first, 0o644); err != nil {
+		t.Fatal(err)
+	}
+	a := &assets{path: dir, config: c20RaceConf(1), filenameClientConf: "ClientConf"}
+	per := vlib.Budget(150, 1500)
+	const writers = 4
+	var failMu sync.Mutex
+	failed := map[string]bool{}
+	fail := func(sig, what, replay string) {
+		failMu.Lock()
+		defer failMu.Unlock()
+		if !failed[sig] {
+			failed[sig] = true
+			out.OracleFail(sig, what, replay)
+		}
+	}
+	// the file, read back all the time
+	watch := func(stop chan struct{}, selfConsistent bool, phase string) chan int {
+		res := make(chan int, 1)
+		go func() {
+			n := 0
+			for {
+				select {
+				case <-stop:
+					res <- n
+					return
+				default:
+				}
+				raw, err := os.ReadFile(filepath.Join(dir, "ClientConf"))
+				if err != nil {
+					fail("C20:target-missing", "concurrent stores: the ClientConf file cannot be read: "+err.Error(), "race phase="+phase)
+					continue
+				}
+				c, perr := c20ParseBytes(raw)
+				out.Checked()
+				n++
+				switch {
+				case perr != nil:
+					fail("C20:target-unparseable", fmt.Sprintf("concurrent stores: the ClientConf file (%d bytes) does not parse: %v", len(raw), perr), "race phase="+phase)
+				case selfConsistent && !proto.Equal(c, c20RaceConf(int(c.GetGeneration()))):
+					fail("C20:target-neither-old-nor-new", fmt.Sprintf("concurrent stores: the file carries generation %d but not that configuration's key and decoys: a mixture", c.GetGeneration()), "race phase="+phase)
+				}
+			}
+		}()
+		return res
+	}
+	getters := func(stop chan struct{}, wg *sync.WaitGroup) {
+		defer wg.Done()
+		probe := c20Decoys(7, 1)[0]
+		for {
+			select {
+			case <-stop:
+				return
+			default:
+			}
+			_ = a.GetGeneration()
+			_ = a.GetPubkey()
+			_ = a.IsDecoyInList(probe)
+			_ = a.GetPhantomSubnets()
+			_ = a.GetDNSRegConf()
+		}
+	}
+	run := func(phase string, selfConsistent bool, body func(w, j int) error) {
+		stop := make(chan struct{})
+		seen := watch(stop, selfConsistent, phase)
+		var gw sync.WaitGroup
+		gw.Add(1)
+		go getters(stop, &gw)
+		var wg sync.WaitGroup
+		for w := 0; w < writers; w++ {
+			wg.Add(1)
+			go func(w int) {
+				defer wg.Done()
+				for j := 0; j < per; j++ {
+					if err := body(w, j); err != nil {
+						if c := c20ErrClass(err); c == "no space left" || c == "quota exceeded" {
+							out.Count("skip:env-full")
+							return
+						}
+						fail("C20:healthy-store-failed", fmt.Sprintf("concurrent stores, phase %s: a store failed in a healthy directory: %v", phase, err), "race phase="+phase)
+						return
+					}
+				}
+			}(w)
+		}
+		wg.Wait()
+		close(stop)
+		gw.Wait()
+		out.Count(fmt.Sprintf("race:%s:file-read-back", phase))
+		_ = <-seen
+		// everybody is done: the file is the configuration in memory
+		raw, _ := os.ReadFile(filepath.Join(dir, "ClientConf"))
+		c, perr := c20ParseBytes(raw)
+		out.Checked()
+		if perr != nil || !proto.Equal(c, a.GetClientConfPtr()) {
+			fail("C20:file-differs-from-memory-after-concurrent-stores", fmt.Sprintf("phase %s: after all concurrent setters returned (none failed) the file is not the configuration in memory (parse error: %v)", phase, perr), "race phase="+phase)
+		}
+	}
+	// phase A: whole configurations only; every stored configuration is recognisable by its generation
+	run("whole", true, func(w, j int) error { return a.SetClientConf(c20RaceConf(10 + w*per + j)) })
+	// phase B: all five setters mixed
+	run("mixed", false, func(w, j int) error {
+		k := 100000 + w*per + j
+		switch (w + j) % 5 {
+		case 0:
+			return a.SetGeneration(uint32(k))
+		case 1:
+			return a.SetPubkey(c20Key(k, 32))
+		case 2:
+			return a.SetDecoys(c20Decoys(k, 1+k%4))
+		case 3:
+			return a.SetPhantomSubnets(c20SubnetsList(k))
+		}
+		return a.SetClientConf(c20RaceConf(k))
+	})
+	out.Count("race:concurrent-setters-done")
 }
